@@ -1326,6 +1326,84 @@ theorem concat_keys_perm (keys keys' : List String) (h : keys'.Perm keys) (rs : 
       · rw [if_pos hk, if_pos (h.mem_iff.2 hk)]
       · rw [if_neg hk, if_neg (fun hk' => hk (h.mem_iff.1 hk'))]
 
+/-- whatever order the code's `set` yields for the keys of `concat(t1, t2, ...)`, the records are those of
+the model's result up to the order of the columns -/
+theorem concat_any_order (ts : List Table) (hr : ∀ t ∈ ts, ∃ n, t.Rect n) (keys' : List String)
+    (h : keys'.Perm (Table.concat ts).cols) :
+    RecsEquiv (Recs.concatWith keys' (ts.map abs)) (abs (Table.concat ts)) := by
+  have hcols : (Table.concat ts).cols = dedupKeys ((ts.map abs).flatMap Recs.cols) := by
+    simp only [Table.concat, cols, List.map_map, Function.comp_def, List.flatMap_map, abs, List.map_id']
+    rfl
+  rw [abs_concat ts hr]
+  rw [hcols] at h
+  exact (concat_keys_perm _ keys' h (ts.map abs)).1
+
+/-- tables that differ only in the order of their columns cannot be told apart by `len`, `d[k]` or
+`d[k1, k2, ...]` (a record read as a dict does not depend on the order either: the third clause of
+`RecsEquiv`) -/
+theorem equiv_observe (a b : Recs) (h : RecsEquiv a b) :
+    a.rows.length = b.rows.length ∧ (∀ k, a.getCol k = b.getCol k) ∧ (∀ ks, a.getTuple ks = b.getTuple ks) := by
+  obtain ⟨hp, hl, hc⟩ := h
+  have hcont : ∀ k, a.cols.contains k = b.cols.contains k := by
+    intro k
+    cases hb : b.cols.contains k with
+    | true => exact List.contains_iff_mem.2 (hp.mem_iff.2 (List.contains_iff_mem.1 hb))
+    | false =>
+      cases ha : a.cols.contains k with
+      | false => rfl
+      | true =>
+        have := List.contains_iff_mem.2 (hp.mem_iff.1 (List.contains_iff_mem.1 ha))
+        rw [hb] at this; cases this
+  have hmap : ∀ (F : String → List Cell → Cell) (G : String → List Cell → Cell) (ks : List String),
+      (∀ i k, F k (a.rows.getD i []) = G k (b.rows.getD i [])) →
+      (a.rows.map fun row => ks.map fun k => F k row) = b.rows.map fun row => ks.map fun k => G k row := by
+    intro F G ks hFG
+    apply List.ext_getElem
+    · simp [hl]
+    · intro i h1 h2
+      simp only [List.getElem_map]
+      apply List.map_congr_left
+      intro k _
+      have h1' : i < a.rows.length := by simpa using h1
+      have h2' : i < b.rows.length := by simpa using h2
+      have := hFG i k
+      simpa [List.getD_eq_getElem?_getD, h1', h2'] using this
+  refine ⟨hl, ?_, ?_⟩
+  · intro k
+    unfold Recs.getCol
+    rw [hcont k]
+    split
+    · apply congrArg Except.ok
+      have := hmap (fun k row => Recs.lookup a.cols row k) (fun k row => Recs.lookup b.cols row k) [k]
+        (fun i k => hc i k)
+      have := congrArg (List.map fun r => r.headD Cell.none) this
+      simpa [List.map_map, Function.comp_def] using this
+    · rfl
+  · intro ks
+    unfold Recs.getTuple
+    have : ks.all a.cols.contains = ks.all b.cols.contains := by
+      congr 1
+      funext k
+      exact hcont k
+    rw [this]
+    split
+    · apply congrArg Except.ok
+      split
+      · rfl
+      · exact hmap (fun k row => Recs.lookup a.cols row k) (fun k row => Recs.lookup b.cols row k) ks
+          (fun i k => hc i k)
+    · rfl
+
+/-- every record of every table the list-of-records machine can reach has exactly one cell per column -/
+theorem spec_reachable_aligned (ops : List Op) :
+    ∀ r ∈ specRun [] ops, ∀ row ∈ r.rows, row.length = r.cols.length := by
+  intro r hr row hrow
+  rw [← (abs_run_empty ops).1] at hr
+  obtain ⟨t, _, rfl⟩ := List.mem_map.1 hr
+  simp only [abs, rows, List.mem_map] at hrow
+  obtain ⟨i, _, rfl⟩ := hrow
+  simp [row, abs, cols]
+
 /-! ### non-vacuity: the hypotheses are satisfiable on non-trivial values -/
 
 /-- a 3-row, 2-column table; the history below builds it, masks it to nothing, assigns, concatenates -/
